@@ -19,6 +19,7 @@ import time
 
 from checks import common
 from simftp import corpus, fs as simfs, scenario
+from simftp.world import aioftp
 
 PROP = "C13"
 ERRS = [errno.EIO, errno.ENOSPC, "runtime", errno.EACCES, "value"]
@@ -184,9 +185,105 @@ def run_stagger_case(case):
     return res
 
 
+SLOW_SCRIPT = ["PWD", "MKD newdir", "MLST a.bin", "CWD d1", "CDUP", "RNFR b.bin", "RNTO b2.bin", "DELE empty", "RMD newdir", "MLST nope", "PWD"]
+
+
+def run_slowcall_case(case):
+    """The shipped AsyncPathIO on a real scratch directory, `path_timeout` set, and the k-th
+    executor call taking far longer than it: a backend call that does not come back in time is
+    a backend failure like any other - 451 for the command it belongs to, and the session goes
+    on."""
+    import os
+    import shutil
+    import tempfile
+
+    from checks import c18
+    from simftp.peers import PeerGone, RawPeer, ReplyTimeout
+
+    sc = {"seed": case["seed"], "net": {"latency": [0.0005, 0.002], "seg_mode": "whole"}}
+    viol = []
+    info = {"slow": 0}
+    world = scenario.setup_world(sc)
+    scratch = tempfile.mkdtemp(prefix="c13_", dir=c18.SCRATCH_ROOT)
+    world.digest_masks = [scratch]
+    try:
+        with world:
+            scenario.apply_net(world.net, sc["net"])
+            c18.fs_populate(scratch, {"/a.bin": b"0123456789" * 5, "/b.bin": b"bbbb", "/empty": b"", "/d1": None, "/d1/x": b"x"})
+            server = aioftp.Server([aioftp.User(base_path=scratch)], path_io_factory=aioftp.AsyncPathIO, block_size=16, path_timeout=case.get("path_timeout", 0.05), wait_future_timeout=5.0)
+            world.server = server
+            r2 = world.rng("executor")
+            calls = {"n": 0}
+
+            def delay():
+                calls["n"] += 1
+                if info.get("armed") and calls["n"] == info["armed"]:
+                    info["slow"] += 1
+                    info["slow_during"] = info.get("current")
+                    return case.get("slow_for", 1.0)
+                return r2.choice([0.0, 0.0001, 0.001])
+
+            world.loop.executor_delay = delay
+            peer = RawPeer(world, "s0", reply_timeout=200.0)
+            replies = []
+
+            async def session():
+                await peer.connect()
+                await peer.cmd("USER anonymous")
+                info["armed"] = calls["n"] + case["k"]
+                for line in SLOW_SCRIPT:
+                    info["current"] = line
+                    try:
+                        code, _ = await peer.cmd(line)
+                    except ReplyTimeout:
+                        code = "<no reply>"
+                    except PeerGone:
+                        code = "<closed>"
+                    replies.append((line, code))
+                    if code.startswith("<"):
+                        break
+
+            async def main():
+                await server.start("127.0.0.1", 2121)
+                await world.spawn(session(), "s0")
+                peer.close()
+                await asyncio.sleep(2)
+                await asyncio.wait_for(server.close(), 1e4)
+
+            world.run(main())
+            if world.outcome not in ("ok", "budget", "deadlock"):
+                raise common.HarnessError(f"scenario failed: {world.outcome}: {world.error!r}")
+            if info["slow"]:
+                hit = info.get("slow_during")
+                got = dict(replies).get(hit)
+                if got != "451":
+                    viol.append({"clause": "fault-not-answered-451", "subject": f"{(hit or '?').split()[0]}:path_timeout", "detail": f"executor call {case['k']} (during {hit!r}) took {case.get('slow_for', 1.0)}s with path_timeout={case.get('path_timeout', 0.05)}: reply {got}; all replies {replies}"})
+                if len(replies) < len(SLOW_SCRIPT) or replies[-1][1] != "257":
+                    viol.append({"clause": "session-unusable-after-backend-failure", "subject": f"{(hit or '?').split()[0]}:path_timeout", "detail": f"after the timed-out backend call during {hit!r} the session did not go on: {replies}"})
+            res = {
+                "digest": world.digest([tuple(x[1:]) for x in peer.transcript] + [case["k"]]),
+                "nontrivial": bool(info["slow"]),
+                "vtime": world.loop.time() - 1000.0,
+                "events": world.net.seq,
+                "steps": world.loop.steps,
+                "outcome": world.outcome,
+                "counters": {"faults.backend_call_exceeded_path_timeout": info["slow"]},
+                "groups": {"fault_verb": {((info.get("slow_during") or "-").split()[0]) + "/path_timeout": info["slow"]}},
+                "violations": viol,
+                "executor_calls": calls["n"],
+            }
+            if case.get("want_sample"):
+                res["sample"] = {"case": case, "replies": replies}
+            return res
+    finally:
+        shutil.rmtree(scratch, ignore_errors=True)
+
+
 def run_case(case):
     if case.get("kind") == "stagger":
         return run_stagger_case(case)
+    if case.get("kind") == "slowcall":
+        return run_slowcall_case(case)
     sc = build(case)
     viol = []
     state = {}
@@ -413,7 +510,10 @@ def main(argv=None):
             for j in range(1, pil["calls"] + 1):
                 for k in range(0, 40, 1 if not quick else 1):
                     stag.append({"kind": "stagger", "seed": a.seed * 100 + fi, "first": first, "second": STAGGER_SECOND[(j + k) % len(STAGGER_SECOND)], "k": k, "j": j, "warm": (k + j) % 3})
-        plan = stag + plan
+        # every executor call of a scripted session on AsyncPathIO exceeding path_timeout
+        pil = run_slowcall_case({"kind": "slowcall", "seed": a.seed, "k": 10**9})
+        slow = [{"kind": "slowcall", "seed": a.seed * 10 + (k % 3), "k": k} for k in range(1, pil["executor_calls"] + 1)]
+        plan = slow + stag + plan
         total = len(plan)
         for c in plan[:2]:
             c["want_sample"] = True
